@@ -56,7 +56,7 @@ def dispatch (st : State) (toks : List String) : State × String :=
   | "fsp" :: rest => let (f, a) := FsPascal.handle st.fs.raw st.fsp rest; ({ st with fsp := f }, a)
   | "fsd" :: rest => let (f, a) := FsDos.handle st.fs.raw st.fsd rest; ({ st with fsd := f }, a)
   | "fsf" :: rest => let (f, a) := FsFat.handle st.fs.raw st.fsf rest; ({ st with fsf := f }, a)
-  | "fspd" :: rest => let (f, a) := FsProdos.handle st.fs.raw st.fspd rest; ({ st with fspd := f }, a)
+  | "fspd" :: rest => let (f, a) := FsProdos.handle st.fs.raw st.fs.prev st.fspd rest; ({ st with fspd := f }, a)
   | "fsc" :: rest =>
     let dpb : Read.Cpm.Dpb := { bsh := Fs.param st.fs "bsh", exm := Fs.param st.fs "exm", dsm := Fs.param st.fs "dsm", drm := Fs.param st.fs "drm",
                                 al0 := Fs.param st.fs "al0", al1 := Fs.param st.fs "al1", v3 := Fs.param st.fs "v3" == 1 }
